@@ -32,11 +32,14 @@ def killer(P):
 def killer_funcs(P):
     """All ResourcePool methods that call <container>.kill(...): the OOM killer, wherever its passes live."""
     c = P.cls(RP, "ResourcePool")
-    fs = [m for m in c.methods.values() if any(isinstance(x, ast.Call) and isinstance(x.func, ast.Attribute) and x.func.attr == "kill" for x in own_nodes(m.node))]
+    from ..util import view_funcs
+    # as the rules see the class: a pass that lives in a helper which is looked through at its only call site is part of that caller
+    fs = [m for m in view_funcs(P, c.methods[next(iter(c.methods))].mod) if m.cls == "ResourcePool" and m.qual == f"ResourcePool.{m.name}"
+          and any(isinstance(x, ast.Call) and isinstance(x.func, ast.Attribute) and x.func.attr == "kill" for x in own_nodes(m.node))]
     if not fs:
         raise AnalysisError("no ResourcePool method calls Container.kill: the OOM killer was not found")
-    from ..util import inline_helpers
-    return [_decorated(P, inline_helpers(P, m)) for m in sorted(fs, key=lambda m: m.node.lineno)]   # scoring / ranking extracted into a private helper is looked through
+    order = {q: i for i, q in enumerate(c.methods)}
+    return [_decorated(P, m) for m in sorted(fs, key=lambda m: order.get(m.name, 0))]
 
 
 def _key_expr(P, f, key: ast.expr, arg: ast.expr):
@@ -75,11 +78,51 @@ def _key_expr(P, f, key: ast.expr, arg: ast.expr):
     return norm.Subst({params[0]: arg}).visit(norm.clone(norm.subst(body[-1].value, loc)))
 
 
+def _sorted_copy_in_place(f):
+    """`V = sorted(L, key=K, reverse=R)` where L is a local list that is not looked at again is `L.sort(key=K, reverse=R)` with V another name
+    for L (both sorts are stable and compute each key once)."""
+    from ..model import Func
+    from .common import pos
+    for st in [n for n in own_nodes(f.node) if isinstance(n, ast.Assign) and len(n.targets) == 1 and isinstance(n.targets[0], ast.Name) and isinstance(n.value, ast.Call)
+               and norm.is_name(n.value.func, "sorted") and len(n.value.args) == 1 and isinstance(n.value.args[0], ast.Name)]:
+        V, L = st.targets[0].id, st.value.args[0].id
+        if V == L:
+            continue
+        if not any(isinstance(c, ast.Call) and isinstance(c.func, ast.Attribute) and c.func.attr == "append" and norm.is_name(c.func.value, L) for c in own_nodes(f.node)):
+            continue
+        later_L = [n for n in own_nodes(f.node) if isinstance(n, ast.Name) and n.id == L and pos(f, n) > pos(f, st.value.args[0])]
+        v_binds = [n for n in own_nodes(f.node) if isinstance(n, ast.Name) and n.id == V and isinstance(n.ctx, (ast.Store, ast.Del))]
+        if later_L or len(v_binds) != 1 or L in f.params():
+            continue
+        node = norm.clone(f.node)
+        omap = {id(o): c_ for o, c_ in zip(ast.walk(f.node), ast.walk(node))}
+        cst = omap[id(st)]
+        new = ast.copy_location(ast.Expr(value=ast.Call(func=ast.Attribute(value=ast.Name(id=L, ctx=ast.Load()), attr="sort", ctx=ast.Load()), args=[],
+                                                        keywords=cst.value.keywords)), cst)
+        par = getattr(cst, "_parent", None) or omap.get(id(parent(st)))
+        par = omap[id(parent(st))]
+        for fld in ("body", "orelse", "finalbody"):
+            b = getattr(par, fld, None)
+            if isinstance(b, list) and any(x is cst for x in b):
+                setattr(par, fld, [new if x is cst else x for x in b])
+        for n in ast.walk(node):
+            if isinstance(n, ast.Name) and n.id == V:
+                n.id = L
+        ast.fix_missing_locations(node)
+        for n in ast.walk(node):
+            for ch in ast.iter_child_nodes(n):
+                ch._parent = n  # type: ignore[attr-defined]
+        node._parent = getattr(f.node, "_parent", None)  # type: ignore[attr-defined]
+        return Func(f.mod, f.qual, node, f.cls)
+    return f
+
+
 def _decorated(P, f):
     """`cands.append(c) ... cands.sort(key=score, reverse=..) ... for v in cands` is decorate-sort-undecorate written with a key function;
     rewrite it to the explicit (score, container) form the rules below are stated on (list.sort computes each key once, up front, and is
     stable: the two forms order the list identically)."""
     from ..model import Func
+    f = _sorted_copy_in_place(f)
     for srt in [c for c in own_nodes(f.node) if isinstance(c, ast.Call) and isinstance(c.func, ast.Attribute) and c.func.attr == "sort" and isinstance(c.func.value, ast.Name)]:
         key = norm.kwarg(srt, "key")
         if key is None or (isinstance(key, ast.Lambda) and isinstance(key.body, ast.Subscript)):
